@@ -157,7 +157,27 @@ static inline _Bool i_hdr(const CL *L) { return (L->head == NULL) == (L->tail ==
  * std::make_shared<Node> = this allocation + the extracted Node constructor.  The fresh node receives the
  * prophecy rank g_next_rank (constrained by the caller's precondition, renumbering lemma DESIGN 3.2) and the
  * next ghost-clock value as its addStamp. */
+/* exception mode (-DMODE_EXC, C09): allocation of the node and the copy of the user's callback into it may raise; the
+ * adding operations then leave the list exactly as it was (strong guarantee), with the mutex released */
+extern int g_exc;
+#ifdef MODE_EXC
+#define EXC_OR g_exc ||
+#define EXC_FRAME g_exc
+static inline void exc_maybe(void) { if (!g_exc && nondet_bool()) g_exc = 1; }
+#undef CALLBACK_COPY
+#define CALLBACK_COPY(p) ({ exc_maybe(); *(p); })
+#define EXC_ALLOC_ASSIGNS __CPROVER_assigns(g_exc)
+#define EXC_STRONG(x) __CPROVER_ensures(g_exc ==> (UNLOCKED(self) && (x)))      /* the list is exactly as it was */
+#define EXC_REQ __CPROVER_requires(!g_exc)
+#else
+#define EXC_STRONG(x)
+#define EXC_REQ
+#define EXC_OR
+#define EXC_FRAME
+#define EXC_ALLOC_ASSIGNS
+#endif
 #define CONTRACT_Node_alloc \
+  EXC_ALLOC_ASSIGNS \
   __CPROVER_requires(CLOCK_OK && g_next_rank > 0) \
   __CPROVER_assigns(g_clock) \
   __CPROVER_ensures(FRESH_NODE(__CPROVER_return_value)) \
@@ -264,22 +284,24 @@ static inline _Bool i_hdr(const CL *L) { return (L->head == NULL) == (L->tail ==
   __CPROVER_requires(g_u0 == (unsigned long long)(AP_T != NULL) && g_next_rank > 0 && rank_free(g_next_rank, self->head)) \
   __CPROVER_requires(W1(I_STAMP(gW) && INV_TIME(self) && W_INST(self, gW, AP_T, NUL, NUL) && W_INST(self, AP_T, AP_T, NUL, NUL) && rank_free(g_next_rank, gW))) \
   __CPROVER_requires(W2(INV_TIME(self) && W_INST(self, gK, AP_T, NUL, NUL) && W_INST(self, gK->next, AP_T, NUL, NUL) && W_INST(self, AP_T, gK, NUL, NUL) && rank_free(g_next_rank, gK) && rank_free(g_next_rank, gK->next))) \
+  EXC_REQ __CPROVER_assigns(EXC_FRAME) \
   __CPROVER_assigns(self->mutex.depth, self->currentCounter, g_clock, self->tail) \
   __CPROVER_assigns(AP_T == NULL: self->head) \
   __CPROVER_assigns(AP_T != NULL: AP_T->next) \
-  __CPROVER_ensures(FRESH_NODE(AP_M))                                             /* a new node, shared with nothing */ \
-  __CPROVER_ensures(UNLOCKED(self) && I_HDR(self)) \
-  __CPROVER_ensures(PEQ(self->tail, AP_M) && AP_M->next == NULL) \
-  __CPROVER_ensures(PTR_IS(AP_M->previous, __CPROVER_old(self->tail))) \
-  __CPROVER_ensures(g_u0 ? (PEQ(AP_M->previous->next, AP_M) && self->head == __CPROVER_old(self->head)) : PEQ(self->head, AP_M)) \
-  __CPROVER_ensures(AP_M->callback.id == callback->id) \
-  __CPROVER_ensures(AP_M->counter == self->currentCounter && self->currentCounter == __CPROVER_old(self->currentCounter) + 1) \
-  __CPROVER_ensures(AP_M->rank == g_next_rank && AP_M->addStamp == g_clock && g_clock == __CPROVER_old(g_clock) + 1) \
-  __CPROVER_ensures(I_FWD(self, AP_M) && I_BWD(self, AP_M) && I_STAMP(AP_M)) \
-  __CPROVER_ensures(g_u0 ==> I_FWD(self, AP_M->previous)) \
-  __CPROVER_ensures(K_ENS(self)) \
-  __CPROVER_ensures(W1(W_INST(self, gW, AP_M->previous, AP_M, NUL) && W_INST(self, AP_M, AP_M->previous, AP_M, NUL) && W_INST(self, AP_M->previous, AP_M->previous, AP_M, NUL))) \
-  __CPROVER_ensures(W2(W_INST(self, AP_M, gK, NUL, NUL) && W_INST(self, gK, AP_M->previous, AP_M, gK)))
+  __CPROVER_ensures(EXC_OR (FRESH_NODE(AP_M)))                                             /* a new node, shared with nothing */ \
+  __CPROVER_ensures(EXC_OR (UNLOCKED(self) && I_HDR(self))) \
+  __CPROVER_ensures(EXC_OR (PEQ(self->tail, AP_M) && AP_M->next == NULL)) \
+  __CPROVER_ensures(EXC_OR (PTR_IS(AP_M->previous, __CPROVER_old(self->tail)))) \
+  __CPROVER_ensures(EXC_OR (g_u0 ? (PEQ(AP_M->previous->next, AP_M) && self->head == __CPROVER_old(self->head)) : PEQ(self->head, AP_M))) \
+  __CPROVER_ensures(EXC_OR (AP_M->callback.id == callback->id)) \
+  __CPROVER_ensures(EXC_OR (AP_M->counter == self->currentCounter && self->currentCounter == __CPROVER_old(self->currentCounter) + 1)) \
+  __CPROVER_ensures(EXC_OR (AP_M->rank == g_next_rank && AP_M->addStamp == g_clock && g_clock == __CPROVER_old(g_clock) + 1)) \
+  __CPROVER_ensures(EXC_OR (I_FWD(self, AP_M) && I_BWD(self, AP_M) && I_STAMP(AP_M))) \
+  __CPROVER_ensures(EXC_OR (g_u0 ==> I_FWD(self, AP_M->previous))) \
+  __CPROVER_ensures(EXC_OR (K_ENS(self))) \
+  __CPROVER_ensures(EXC_OR (W1(W_INST(self, gW, AP_M->previous, AP_M, NUL) && W_INST(self, AP_M, AP_M->previous, AP_M, NUL) && W_INST(self, AP_M->previous, AP_M->previous, AP_M, NUL)))) \
+  __CPROVER_ensures(EXC_OR (W2(W_INST(self, AP_M, gK, NUL, NUL) && W_INST(self, gK, AP_M->previous, AP_M, gK)))) \
+  EXC_STRONG(self->tail == __CPROVER_old(self->tail) && self->head == __CPROVER_old(self->head) && (self->tail != NULL ==> self->tail->next == NULL))
 
 /* ================================================================== prepend (callbacklist.h:190): mirror image */
 #define PP_H (self->head)
@@ -292,22 +314,24 @@ static inline _Bool i_hdr(const CL *L) { return (L->head == NULL) == (L->tail ==
   __CPROVER_requires(g_u0 == (unsigned long long)(PP_H != NULL) && g_next_rank > 0 && rank_free(g_next_rank, self->tail)) \
   __CPROVER_requires(W1(I_STAMP(gW) && INV_TIME(self) && W_INST(self, gW, NUL, NUL, NUL) && W_INST(self, PP_H, NUL, NUL, NUL) && rank_free(g_next_rank, gW))) \
   __CPROVER_requires(W2(INV_TIME(self) && W_INST(self, gK, gK, NUL, NUL) && W_INST(self, gK->next, gK, NUL, NUL) && W_INST(self, PP_H, gK, NUL, NUL) && rank_free(g_next_rank, gK) && rank_free(g_next_rank, gK->next))) \
+  EXC_REQ __CPROVER_assigns(EXC_FRAME) \
   __CPROVER_assigns(self->mutex.depth, self->currentCounter, g_clock, self->head) \
   __CPROVER_assigns(PP_H == NULL: self->tail) \
   __CPROVER_assigns(PP_H != NULL: PP_H->previous) \
-  __CPROVER_ensures(FRESH_NODE(AP_M)) \
-  __CPROVER_ensures(UNLOCKED(self) && I_HDR(self)) \
-  __CPROVER_ensures(PEQ(self->head, AP_M) && AP_M->previous == NULL) \
-  __CPROVER_ensures(PTR_IS(AP_M->next, __CPROVER_old(self->head))) \
-  __CPROVER_ensures(g_u0 ? (PEQ(AP_M->next->previous, AP_M) && self->tail == __CPROVER_old(self->tail)) : PEQ(self->tail, AP_M)) \
-  __CPROVER_ensures(AP_M->callback.id == callback->id) \
-  __CPROVER_ensures(AP_M->counter == self->currentCounter && self->currentCounter == __CPROVER_old(self->currentCounter) + 1) \
-  __CPROVER_ensures(AP_M->rank == g_next_rank && AP_M->addStamp == g_clock && g_clock == __CPROVER_old(g_clock) + 1) \
-  __CPROVER_ensures(I_FWD(self, AP_M) && I_BWD(self, AP_M) && I_STAMP(AP_M)) \
-  __CPROVER_ensures(g_u0 ==> I_BWD(self, AP_M->next)) \
-  __CPROVER_ensures(K_ENS(self)) \
-  __CPROVER_ensures(W1(W_INST(self, gW, AP_M, NUL, NUL) && W_INST(self, AP_M, AP_M, NUL, NUL) && W_INST(self, AP_M->next, AP_M, NUL, NUL))) \
-  __CPROVER_ensures(W2(W_INST(self, AP_M, gK, NUL, NUL) && W_INST(self, gK, AP_M, gK, NUL)))
+  __CPROVER_ensures(EXC_OR (FRESH_NODE(AP_M))) \
+  __CPROVER_ensures(EXC_OR (UNLOCKED(self) && I_HDR(self))) \
+  __CPROVER_ensures(EXC_OR (PEQ(self->head, AP_M) && AP_M->previous == NULL)) \
+  __CPROVER_ensures(EXC_OR (PTR_IS(AP_M->next, __CPROVER_old(self->head)))) \
+  __CPROVER_ensures(EXC_OR (g_u0 ? (PEQ(AP_M->next->previous, AP_M) && self->tail == __CPROVER_old(self->tail)) : PEQ(self->tail, AP_M))) \
+  __CPROVER_ensures(EXC_OR (AP_M->callback.id == callback->id)) \
+  __CPROVER_ensures(EXC_OR (AP_M->counter == self->currentCounter && self->currentCounter == __CPROVER_old(self->currentCounter) + 1)) \
+  __CPROVER_ensures(EXC_OR (AP_M->rank == g_next_rank && AP_M->addStamp == g_clock && g_clock == __CPROVER_old(g_clock) + 1)) \
+  __CPROVER_ensures(EXC_OR (I_FWD(self, AP_M) && I_BWD(self, AP_M) && I_STAMP(AP_M))) \
+  __CPROVER_ensures(EXC_OR (g_u0 ==> I_BWD(self, AP_M->next))) \
+  __CPROVER_ensures(EXC_OR (K_ENS(self))) \
+  __CPROVER_ensures(EXC_OR (W1(W_INST(self, gW, AP_M, NUL, NUL) && W_INST(self, AP_M, AP_M, NUL, NUL) && W_INST(self, AP_M->next, AP_M, NUL, NUL)))) \
+  __CPROVER_ensures(EXC_OR (W2(W_INST(self, AP_M, gK, NUL, NUL) && W_INST(self, gK, AP_M, gK, NUL)))) \
+  EXC_STRONG(self->tail == __CPROVER_old(self->tail) && self->head == __CPROVER_old(self->head) && (self->head != NULL ==> self->head->previous == NULL))
 
 /* ================================================================== doInsert (callbacklist.h:367)
  * window: m = *node (new, unlinked), b = *beforeNode (LIVE node of this list), bp = b->previous, h = head */
@@ -369,6 +393,7 @@ static inline _Bool i_hdr(const CL *L) { return (L->head == NULL) == (L->tail ==
   __CPROVER_requires(W2(INV_TIME(self) && rank_free(g_next_rank, gK) && rank_free(g_next_rank, gK->next))) \
   __CPROVER_requires(W2(IN_LIVE ? (W_INST(self, gK, IN_P, gK, NUL) && W_INST(self, gK->next, IN_P, gK, NUL) && W_INST(self, IN_B, IN_P, gK, NUL) && W_INST(self, IN_P, IN_P, gK, NUL)) \
                                 : (W_INST(self, gK, self->tail, NUL, NUL) && W_INST(self, gK->next, self->tail, NUL, NUL) && W_INST(self, self->tail, gK, NUL, NUL)))) \
+  EXC_REQ __CPROVER_assigns(EXC_FRAME) \
   __CPROVER_assigns(self->mutex.depth, self->currentCounter, g_clock) \
   __CPROVER_assigns(IN_LIVE: IN_B->previous) \
   __CPROVER_assigns(IN_LIVE && self->head == IN_B: self->head) \
@@ -376,19 +401,20 @@ static inline _Bool i_hdr(const CL *L) { return (L->head == NULL) == (L->tail ==
   __CPROVER_assigns(!IN_LIVE: self->tail) \
   __CPROVER_assigns(!IN_LIVE && self->tail == NULL: self->head) \
   __CPROVER_assigns(!IN_LIVE && self->tail != NULL: self->tail->next) \
-  __CPROVER_ensures(FRESH_NODE(AP_M)) \
-  __CPROVER_ensures(UNLOCKED(self) && I_HDR(self)) \
-  __CPROVER_ensures(AP_M->callback.id == callback->id && LIVE(AP_M) && AP_M->rank == g_next_rank) \
-  __CPROVER_ensures(g_b0 ==> (AP_M->next == IN_B && IN_B->previous == AP_M)) \
-  __CPROVER_ensures(g_b0 ==> (g_u1 ? (AP_M->previous->next == AP_M && self->head == __CPROVER_old(self->head)) : (AP_M->previous == NULL && self->head == AP_M))) \
-  __CPROVER_ensures(g_b0 ==> self->tail == __CPROVER_old(self->tail)) \
-  __CPROVER_ensures(!g_b0 ==> (self->tail == AP_M && AP_M->next == NULL && AP_M->previous == __CPROVER_old(self->tail))) \
-  __CPROVER_ensures(!g_b0 ==> (g_u0 ? (AP_M->previous->next == AP_M && self->head == __CPROVER_old(self->head)) : self->head == AP_M)) \
-  __CPROVER_ensures(I_FWD(self, AP_M) && I_BWD(self, AP_M) && I_STAMP(AP_M)) \
-  __CPROVER_ensures(IN_B != NULL ==> I_BWD(self, IN_B)) \
-  __CPROVER_ensures(K_ENS(self)) \
-  __CPROVER_ensures(W1(W_INST(self, gW, AP_M->previous, AP_M, NUL) && W_INST(self, AP_M, AP_M->previous, AP_M, NUL))) \
-  __CPROVER_ensures(W2(W_INST(self, AP_M, gK, NUL, NUL) && W_INST(self, gK, AP_M->previous, AP_M, gK)))
+  __CPROVER_ensures(EXC_OR (FRESH_NODE(AP_M))) \
+  __CPROVER_ensures(EXC_OR (UNLOCKED(self) && I_HDR(self))) \
+  __CPROVER_ensures(EXC_OR (AP_M->callback.id == callback->id && LIVE(AP_M) && AP_M->rank == g_next_rank)) \
+  __CPROVER_ensures(EXC_OR (g_b0 ==> (AP_M->next == IN_B && IN_B->previous == AP_M))) \
+  __CPROVER_ensures(EXC_OR (g_b0 ==> (g_u1 ? (AP_M->previous->next == AP_M && self->head == __CPROVER_old(self->head)) : (AP_M->previous == NULL && self->head == AP_M)))) \
+  __CPROVER_ensures(EXC_OR (g_b0 ==> self->tail == __CPROVER_old(self->tail))) \
+  __CPROVER_ensures(EXC_OR (!g_b0 ==> (self->tail == AP_M && AP_M->next == NULL && AP_M->previous == __CPROVER_old(self->tail)))) \
+  __CPROVER_ensures(EXC_OR (!g_b0 ==> (g_u0 ? (AP_M->previous->next == AP_M && self->head == __CPROVER_old(self->head)) : self->head == AP_M))) \
+  __CPROVER_ensures(EXC_OR (I_FWD(self, AP_M) && I_BWD(self, AP_M) && I_STAMP(AP_M))) \
+  __CPROVER_ensures(EXC_OR (IN_B != NULL ==> I_BWD(self, IN_B))) \
+  __CPROVER_ensures(EXC_OR (K_ENS(self))) \
+  __CPROVER_ensures(EXC_OR (W1(W_INST(self, gW, AP_M->previous, AP_M, NUL) && W_INST(self, AP_M, AP_M->previous, AP_M, NUL)))) \
+  __CPROVER_ensures(EXC_OR (W2(W_INST(self, AP_M, gK, NUL, NUL) && W_INST(self, gK, AP_M->previous, AP_M, gK)))) \
+  EXC_STRONG(self->tail == __CPROVER_old(self->tail) && self->head == __CPROVER_old(self->head))
 
 /* ================================================================== empty (callbacklist.h:158) */
 #define CONTRACT_CL_empty \
